@@ -2,7 +2,8 @@
 
 Correspondence: every history (requests with a per-ATTEMPT fault script — outcomes of connect / send / recv,
 and failures outside the I/O steps: before the checkout (invalid timeout, file-like body that cannot be
-rewound) and between two attempts (the wait raises) —, ways of disposing of the
+rewound), in the checkout itself (negative `pool_timeout` on a blocking pool) and between two attempts (the wait
+raises) —, ways of disposing of the
 response, pool.close()) is run on the real `HTTPConnectionPool` over the in-memory network
 (`harness/net.py`) and on `U3.Pool.step` (driver `pool`); per op the per-socket event trace
 (connect / send / recv / close, `_put_conn` calls), the queue content and the result class are
@@ -127,12 +128,16 @@ REQCFGS = [
 # per-request keywords that make `urlopen` fail outside the I/O steps of an attempt: `body="file"` a file-like body
 # (rewound at every retry / redirect hop; `seek()` fails where the script says `pre="unrewind"`), `bodypos=True` the
 # caller passes `body_pos=0` (the first invocation rewinds, too), `badtimeout=True` passes `timeout=-1` (rejected by
-# `Timeout`: ValueError, the caller's own argument error)
+# `Timeout`: ValueError, the caller's own argument error), `badpooltimeout=True` passes `pool_timeout=-1` (rejected
+# by `queue.get(block=True, timeout=-1)` inside `_get_conn`: ValueError on a block=True pool — the caller's own
+# argument error again; a block=False pool never looks at `pool_timeout`)
 EXTRA_KW = [
     dict(body="file"),
     dict(body="file", bodypos=True),
     dict(badtimeout=True),
     dict(body="file", badtimeout=True),
+    dict(badpooltimeout=True),
+    dict(body="file", badpooltimeout=True),
 ]
 # outcomes after which urlopen goes on to another invocation (given budget), and the failures between the attempts
 HOP_OUTCOMES = ["302", "302-close", "302-ra", "303", "503-ra", "conn-refused", "recv-reset", "send-reset"]
@@ -326,6 +331,8 @@ class World:
         self.sock_history = {}       # sid -> description of the previous reply on that socket
         self.inv_conn = False        # the urlopen invocation now running has taken a connection out of the pool
         self.put_without_checkout = False   # `_put_conn(None)` on an open pool by an invocation that took nothing
+        self.get_raised = None       # class of what `_get_conn` raised in the urlopen invocation now running
+        self.pwc_sig = ""            # classifier of the first put-without-checkout seen
         self.sleeps = []
         net = self.net
         orig_log = net.log
@@ -340,7 +347,7 @@ class World:
                     detached = [rid for rid, r in self.resps.items()
                                 if r is not None and r._connection is None and r._fp is not None
                                 and hasattr(r._fp, "isclosed") and not r._fp.isclosed()]
-                    self.bound_sig = "block-bound-exceeded" + (":put-without-checkout" if self.put_without_checkout else
+                    self.bound_sig = "block-bound-exceeded" + (self.pwc_sig if self.put_without_checkout else
                                                                ":unread-response-after-release" if detached else "")
         net.log = log
         net.connect_hook = self.on_connect
@@ -488,17 +495,28 @@ class World:
         def put_conn(conn):
             world.net.events.append(("put", None if conn is None else conn._vid))
             if conn is None and not world.inv_conn and pool.pool is not None:
+                if not world.put_without_checkout:
+                    # which instance: `_get_conn` was never reached (a statement of the `try:` before it raised),
+                    # or `_get_conn` itself raised before it took anything (`queue.get` rejecting `pool_timeout`)
+                    world.pwc_sig = ":put-without-checkout" + (
+                        "" if world.get_raised is None else
+                        ":pool-timeout" if world.get_raised is ValueError else ":checkout-raised")
                 world.put_without_checkout = True
             return orig_put(conn)
 
         def get_conn(*a, **kw):
-            c = orig_get(*a, **kw)
+            try:
+                c = orig_get(*a, **kw)
+            except BaseException as e:   # noqa: BLE001 - the class is the observation
+                world.get_raised = type(e)
+                raise
             world.inv_conn = True
             return c
 
         def urlopen(*a, **kw):
             world.begin_attempt()
             world.inv_conn = False
+            world.get_raised = None
             return orig_open(*a, **kw)
 
         def make_request(*a, **kw):
@@ -573,7 +591,8 @@ def req_line(rid, op, script_tokens):
     rel = op["preload"] if op.get("release") is None else op["release"]
     ret = "~" if op["retries"] is False else str(op["retries"])
     method = op.get("method", "GET")
-    ext = "%d%d%d" % (int(op.get("body") == "file"), int(bool(op.get("bodypos"))), int(bool(op.get("badtimeout"))))
+    ext = "%d%d%d%d" % (int(op.get("body") == "file"), int(bool(op.get("bodypos"))), int(bool(op.get("badtimeout"))),
+                        int(bool(op.get("badpooltimeout"))))
     return "req %d %s %d %d %d %d %d %s %s" % (rid, ret, int(op["preload"]), int(rel), int(op.get("redirect", True)),
                                                  int(method != "POST"), int(method == "HEAD"), ext,
                                                  ";".join(script_tokens) if script_tokens else "-")
@@ -625,8 +644,9 @@ def run_history(case, res, check_c01=True, check_c03=False, pid="C01"):
     def check_exc(e, where, op=None):
         if isinstance(e, HTTPError):
             return
-        if type(e) is ValueError and op is not None and op.get("badtimeout"):
-            return       # the caller's own argument error (`timeout=-1`), not a failure of the request
+        if type(e) is ValueError and op is not None and (op.get("badtimeout") or
+                                                         (op.get("badpooltimeout") and cfg["block"])):
+            return       # the caller's own argument error (`timeout=-1` / `pool_timeout=-1`), not a failure of the request
         if isinstance(e, Interrupt):
             if getattr(e, "token", None) not in w.armed:
                 fail("foreign-interrupt", f"{where}: an Interrupt that was not injected")
@@ -651,7 +671,8 @@ def run_history(case, res, check_c01=True, check_c03=False, pid="C01"):
                         w.att_rid, w.att_idx, w.attempt = rid, -1, None
                         lines.append(req_line(rid, op, toks))
                         w.req_ops[rid] = op
-                        kw = dict(retries=op["retries"], preload_content=op["preload"], pool_timeout=0.001,
+                        kw = dict(retries=op["retries"], preload_content=op["preload"],
+                                  pool_timeout=-1 if op.get("badpooltimeout") else 0.001,
                                   redirect=op.get("redirect", True))
                         if op.get("release") is not None:
                             kw["release_conn"] = op["release"]
@@ -798,7 +819,7 @@ def quiescence_oracle(w, case, resps, hows, fail, res):
         # connection too many as soon as enough requests are outstanding
         holding = {id(r._connection) for r in resps.values() if r is not None and getattr(r, "_connection", None) is not None}
         if len(items) + len(holding) > n:
-            fail("slot-surplus" + (":put-without-checkout" if w.put_without_checkout else ""),
+            fail("slot-surplus" + (w.pwc_sig if w.put_without_checkout else ""),
                  f"block=True maxsize={n}: the pool offers {len(items)} free slots while {len(holding)} responses "
                  f"still hold their connections")
     unsettled = [rid for rid, r in resps.items() if not (set(hows.get(rid, [])) & SETTLING)]
@@ -872,7 +893,8 @@ class C01(Prop):
             "close, short body then silence/EOF/reset/interrupt, stray bytes, chunked reply (complete / trailer section "
             "held back), connect refused/timeout/name-resolution/"
             "interrupt, send EPIPE/ECONNRESET/EIO/interrupt, receive timeout/reset/EOF/garbage/interrupt; failures "
-            "outside the I/O steps: invalid per-request timeout (ValueError before the checkout), file-like body that "
+            "outside the I/O steps: invalid per-request timeout (ValueError before the checkout), negative pool_timeout "
+            "(ValueError inside the checkout of a block=True pool, nothing taken), file-like body that "
             "cannot be rewound at a retry / redirect hop (UnrewindableBodyError before the checkout), the wait between two "
             "attempts raising (Retry-After: soon -> InvalidHeader, time.sleep interrupted)} x "
             "maxsize/block x retries/preload_content/release_conn x direct/forwarding/tunnelling pool x disposal "
@@ -881,10 +903,12 @@ class C01(Prop):
             "history with <=2 attempts on 7 pool configurations + sampled 2-request histories; thorough: <=3 requests x "
             "<=3 attempts sampled. non-trivial = at least one fault or non-200 outcome was consumed")
     assumptions = ["faults are injected at I/O steps (connect / sendall / recv), before the checkout (invalid timeout "
-                   "argument, file-like body whose seek() fails) and in the wait between two attempts (Retry-After "
+                   "argument, file-like body whose seek() fails), in the checkout (negative pool_timeout rejected by "
+                   "queue.get on a block=True pool) and in the wait between two attempts (Retry-After "
                    "parsing, time.sleep); an interrupt between two bytecodes is outside the model",
                    "a ValueError for a per-request timeout that Timeout rejects is the caller's argument error, not a "
-                   "failure of the request (the exception oracle accepts it only in histories that pass timeout=-1)",
+                   "failure of the request (the exception oracle accepts it only for requests that pass timeout=-1, or "
+                   "pool_timeout=-1 to a block=True pool)",
                    "bytes arrive when the server sends them (no arrival after the checkout probe)",
                    "tunnelling-proxy pools are checked by the oracle only (the Lean model covers direct and forwarding pools)",
                    "response bodies are shorter than BufferedReader's 8192-byte buffer"]
@@ -897,7 +921,8 @@ class C01(Prop):
         i = 0
         # 0. failures OUTSIDE the I/O steps of an attempt, while other responses are outstanding: `k` streamed
         # responses hold their connections, then one request that fails before its checkout (invalid timeout; a
-        # file-like body that cannot be rewound at a retry / redirect hop) or between two attempts (the wait raises:
+        # file-like body that cannot be rewound at a retry / redirect hop), in its checkout (negative pool_timeout:
+        # `queue.get` raises inside `_get_conn`, block=True pools only) or between two attempts (the wait raises:
         # unparsable Retry-After, interrupted sleep), then N more streamed requests (a slot too many shows as a
         # connection too many on a block=True pool), then everything is disposed of.  (First, so that a loaded
         # machine still gets through this family within the time budget.)
@@ -905,6 +930,8 @@ class C01(Prop):
         special = []
         for rc in (REQCFGS[3], REQCFGS[5]):
             special.append(dict(rc, badtimeout=True, script=[BENIGN, BENIGN]))
+            special.append(dict(rc, badpooltimeout=True, script=[BENIGN, BENIGN]))
+            special.append(dict(rc, retries=2, body="file", badpooltimeout=True, script=["conn-refused", BENIGN, BENIGN]))
             for first in HOP_OUTCOMES:
                 for xkw in EXTRA_KW[:2]:
                     special.append(dict(rc, retries=2, script=[first, "ok-unrewind", BENIGN], **xkw))
@@ -912,6 +939,10 @@ class C01(Prop):
             for wf in WAIT_FAILURES:
                 special.append(dict(rc, retries=2, script=[wf, BENIGN, BENIGN]))
                 special.append(dict(rc, retries=2, body="file", script=["conn-refused", wf, BENIGN]))
+        # the failing call with release_conn=True (the default): `release_this_conn` starts out true, so a `finally`
+        # clause that merely refrains from SETTING it when no connection was obtained still puts a `None` back
+        for rc in (REQCFGS[2], REQCFGS[4]):
+            special.append(dict(rc, badpooltimeout=True, script=[BENIGN, BENIGN]))
         for cfg in CONFIGS_QUICK:
             n = cfg["maxsize"]
             for k in range(0, n + 1):
@@ -1007,7 +1038,7 @@ class C01(Prop):
         return lines, out
 
     def nontrivial(self, case, impl_out):
-        return any(op.get("badtimeout") or op.get("body") or any(a != BENIGN for a in op["script"][:1])
+        return any(op.get("badtimeout") or op.get("badpooltimeout") or op.get("body") or any(a != BENIGN for a in op["script"][:1])
                    for op in case["ops"] if op["op"] == "req")
 
     def shrink_candidates(self, case):
